@@ -18,7 +18,9 @@ What is checked
       bound is visited) and on long random walks, compared with the model after every action (states,
       counters, journals keys, every frame in flight, deliveries, accepted sends) and after settling, and
       decided by an independent oracle written from the property text.
-The theorems (Props/C07.v) cover the single-break family for all n, k; general interleavings are explored only.
+The theorems (Props/C07.v) cover the single-break family for all n, k in each direction separately; general
+interleavings (incl. traffic in flight in both directions at the break, and every schedule with two or more
+breaks) are explored only.
 
 Schedule syntax: words  sA sB (application send)  fA fB (send on a dead transport, then break)
                         dA dB (deliver next item towards A / B)  BRK  REC
@@ -631,7 +633,8 @@ WITNESSES = [
     # the theorems' witnesses, always run first (also the corpus of this property)
     "REC dB dA sA BRK REC dB dA dA BRK",          # C07_double_break_refuted (D13)
     "REC BRK REC dB dA dA sA BRK",                # C07_silent_loss_refuted
-    "REC dB dA sA sA sA dB BRK REC",              # single-break family n=3 k=2
+    "REC dB dA sA sA sA dB BRK REC",              # single-break family n=3 k=2 (C07_single_break)
+    "REC dB dA sB sB sB dA BRK REC",              # mirror family n=3 k=2 (C07_single_break_B_to_A)
     "REC dB dA sA sB BRK REC",                    # both directions in flight
     "REC dB dA sA fA REC",                        # write error variant
 ]
